@@ -23,6 +23,7 @@ NONSTD_MODULES = ("numpy", "torch", "torch._utils", "foo.bar", "pandas", "verif_
                   "numpy.core.multiarray", "torch.storage", "sklearn.svm")  # fmt: skip
 BENIGN_MODULES = ("collections", "datetime", "fractions", "decimal", "copyreg", "operator",
                   "functools", "pickle", "shlex")  # fmt: skip
+HELPER_MODULES = ("verif_objs", "verif_sink")  # the harness's own harmless, non-stdlib modules
 
 # attribute names that individual rules special-case
 SPECIAL_ATTRS = (
@@ -46,7 +47,7 @@ def category(module):
         return "builtins"
     if is_dangerous_module(module):
         return "dangerous"
-    if module in NONSTD_MODULES:
+    if module in NONSTD_MODULES or module in HELPER_MODULES:
         return "nonstd"
     if module in BENIGN_MODULES:
         return "benign"
@@ -72,4 +73,7 @@ ASM_GLOBS = (
     ("numpy", "dtype"),
     ("builtins", "frozenset"),
     ("builtins", "set"),
+    # protocol-4 qualified names (nested classes, methods)
+    ("verif_objs", "Outer.Inner"),
+    ("collections", "Counter.most_common"),
 )
